@@ -176,15 +176,36 @@ fn expected_end(b: &[u8]) -> Result<J, String> {
 	Ok(J::Obj(o))
 }
 
+/// keys whose absence and `null` mean the same (optionals that are not version-gated)
+const NULLABLE: [&str; 4] = ["team", "cpu_level", "dash_back", "shield_drop"];
+
+fn num_eq(a: &str, b: &str) -> bool {
+	if a == b {
+		return true;
+	}
+	// floats: equal when they denote the same f32
+	match (a.parse::<f64>(), b.parse::<f64>()) {
+		(Ok(x), Ok(y)) => (x as f32).to_bits() == (y as f32).to_bits() && (a.contains('.') || a.contains('e') || b.contains('.') || b.contains('e')),
+		_ => false,
+	}
+}
+
+/// got vs expected; object keys are compared as sets (key order is not part of the property)
 fn first_diff(a: &J, b: &J, path: &str) -> Option<String> {
 	match (a, b) {
 		(J::Obj(x), J::Obj(y)) => {
+			let norm = |o: &Vec<(String, J)>| -> Vec<(String, J)> {
+				let mut v: Vec<(String, J)> = o.iter().filter(|(k, v)| !(NULLABLE.contains(&k.as_str()) && *v == J::Null)).cloned().collect();
+				v.sort_by(|p, q| p.0.cmp(&q.0));
+				v
+			};
+			let (x, y) = (norm(x), norm(y));
 			let kx: Vec<&String> = x.iter().map(|(k, _)| k).collect();
 			let ky: Vec<&String> = y.iter().map(|(k, _)| k).collect();
 			if kx != ky {
 				return Some(format!("{}: keys {:?} vs expected {:?}", path, kx, ky));
 			}
-			x.iter().zip(y).find_map(|((k, v), (_, w))| first_diff(v, w, &format!("{}.{}", path, k)))
+			x.iter().zip(y.iter()).find_map(|((k, v), (_, w))| first_diff(v, w, &format!("{}.{}", path, k)))
 		}
 		(J::Arr(x), J::Arr(y)) => {
 			if x.len() != y.len() {
@@ -192,6 +213,7 @@ fn first_diff(a: &J, b: &J, path: &str) -> Option<String> {
 			}
 			x.iter().zip(y).enumerate().find_map(|(i, (v, w))| first_diff(v, w, &format!("{}[{}]", path, i)))
 		}
+		(J::Num(x), J::Num(y)) if num_eq(x, y) => None,
 		(x, y) if x == y => None,
 		(x, y) => Some(format!("{}: {:?} vs expected {:?}", path, x, y)),
 	}
